@@ -241,4 +241,29 @@ C14StepFails(c, l) ==
                       \A h \in new : \A n \in DOMAIN post.b : \A w \in UsersSet(post, h) :
                          w \in SeqSet(post.b[n].g) => h \in SeqSet(post.b[n].g)>>
                >>)
+
+(***************************************************************************)
+(* kind "draw" (C14): Circuit.into_graphviz_digraph(as_bench=True).        *)
+(*   c.a / c.b   the receiver before / after the call (must be equal)      *)
+(*   c.nodes     drawn node id -> gate-type class of the drawn symbol      *)
+(*   c.edges     drawn edges <<from, to>>;  c.clusters  block -> node ids  *)
+(* The picture shows the converted copy: only bench-basis symbols, and a   *)
+(* helper gate (a node that is not a gate of the receiver) lies in every   *)
+(* block cluster that contains the gate it feeds.                          *)
+(***************************************************************************)
+C14DrawFails(c) ==
+  LET orig == DOMAIN c.a.g
+      ids == DOMAIN c.nodes
+      helpers == ids \ orig
+      cl == c.clusters
+  IN FailSet(<<
+       <<c.what, c.a = c.b>>,
+       <<"drawing-raised:" \o c.exc, c.exc = "">>,
+       <<"drawn-symbol-outside-the-bench-basis",
+           ~c.drawn \/ \A n \in ids : c.nodes[n] \notin (OpTypes \ BenchTypes)>>,
+       <<"helper-gate-drawn-outside-a-block-of-the-gate-it-feeds",
+           ~c.drawn \/ \A j \in DOMAIN c.edges :
+              LET h == c.edges[j][1]  u == c.edges[j][2] IN
+              h \in helpers => \A B \in DOMAIN cl : u \in SeqSet(cl[B]) => h \in SeqSet(cl[B])>>
+     >>)
 =============================================================================
